@@ -61,7 +61,7 @@ finally:
 valid = report.get("builds") and report.get("demo_without_change") == "pass" and report.get("demo_with_change") == "fail" and report.get("unit_tests_pass_with_change")
 report["valid_seed"] = bool(valid)
 caught_by = []
-if valid:
+if valid and os.environ.get("SEEDCHECK_INPLACE") == "1":
     st = sh("git -C /repo status --porcelain")
     assert st.stdout.strip() == "", "/repo is not clean: " + st.stdout
     a = sh(f"git -C /repo apply {patch}")
@@ -76,6 +76,25 @@ if valid:
     finally:
         sh("git -C /repo checkout -- .")
         assert sh("git -C /repo status --porcelain").stdout.strip() == ""
+elif valid:
+    # while builder agents share /repo the seed is applied to a scratch worktree of /repo HEAD and the
+    # checks are pointed at it (VERIF_REPO); same build, same commands otherwise
+    wt2 = f"/tmp/{name}-run"
+    sh(f"git -C /repo worktree remove --force {wt2}")
+    r = sh(f"git -C /repo worktree add -q --detach {wt2} HEAD")
+    assert r.returncode == 0, r.stderr
+    try:
+        a = sh(f"git apply {patch}", cwd=wt2)
+        assert a.returncode == 0, a.stderr
+        for c in checks:
+            r = sh(f"VERIF_REPO={wt2} {root}/bin/vcheck run {c} --tier quick", cwd=root)
+            viol = [l for l in r.stdout.splitlines() if l.startswith("violated")]
+            report["ran"].append({"check": c, "exit": r.returncode, "first": viol[0][:300] if viol else ""})
+            if r.returncode == 1:
+                caught_by.append(c)
+    finally:
+        sh(f"git -C /repo worktree remove --force {wt2}")
+        shutil.rmtree(wt2, ignore_errors=True)
 report["verdict"] = "invalid-seed" if not valid else ("caught" if caught_by else "MISSED")
 report["caught_by"] = ", ".join(caught_by)
 dst = os.path.join(root, "seeded", name.replace("seed-", ""))
